@@ -847,9 +847,8 @@ func TestVerif_C04(t *testing.T) {
 			// larger universe (third endpoint with IPv6, second parent, 8 IP sets, an IP-set id whose
 			// content changes in place): depth-bounded graph search
 			c.Extra("alphabet_size_large", len(u.events()))
-			for _, suppress := range []bool{true, false} {
-				hbfs.Explore(c, c04Spec(u, suppress, 5, false, workers, nil, ""))
-			}
+			hbfs.Explore(c, c04Spec(u, true, 5, false, workers, nil, ""))
+			hbfs.Explore(c, c04Spec(u, false, 4, false, workers, nil, ""))
 			_ = noDup
 		}
 	})
